@@ -24,6 +24,7 @@ FUNCTIONS = [
     ("saml2.response", "StatusResponse._verify"),
     ("saml2.response", "AuthnResponse.loads"),
     ("saml2.sigver", "SecurityContext.correctly_signed_response"),
+    ("saml2.response", "AuthnResponse.check_subject_confirmation_in_response_to"),
 ]
 
 LOGGERS = ("logger", "logging", "print")
@@ -126,6 +127,9 @@ class T:
             for v in reversed(e.values[:-1]):
                 acc = "(%s %s %s)" % (op, self.expr(v), acc)
             return acc
+        if (isinstance(e, ast.Compare) and len(e.ops) == 1 and isinstance(e.ops[0], (ast.Is, ast.IsNot))
+                and isinstance(e.comparators[0], ast.Constant) and e.comparators[0].value is None):
+            return "(.isNone %s %s)" % (self.expr(e.left), "true" if isinstance(e.ops[0], ast.IsNot) else "false")
         if isinstance(e, ast.Compare) and len(e.ops) == 1 and type(e.ops[0]) in CMP:
             return "(.cmp .%s %s %s)" % (CMP[type(e.ops[0])], self.expr(e.left), self.expr(e.comparators[0]))
         if isinstance(e, ast.BinOp) and isinstance(e.op, (ast.Add, ast.Sub)):
